@@ -11,7 +11,10 @@
      within 1e-9 always        mean, percentile means, variance (against StdDev squared),
                                per-second rate;
      Count                     floor(S + 1/2) for an S within the sampled-count tolerance.
-   Percentiles are compared as a SET of (name, value): Go ranges over a map. *)
+   Percentiles are compared as a SET of (name, value): Go ranges over a map (equal lengths, and
+   every model entry has an observed entry of the same name with a matching value; the model's
+   names are distinct).  Theorems about [flush_timer]: Props/C08.v ([C08_refines_spec]: it equals
+   [timer_spec] for every input). *)
 From Coq Require Import String.
 From Coq Require Export List ZArith QArith Qcanon.
 From GS Require Export Base.Bytes Base.CorrLib Base.GoFloat Model.GoPartial Model.Histogram Model.Stats.
